@@ -182,7 +182,12 @@ func ValEq(a, b interface{}) bool {
 }
 
 // ValStr renders a runtime value canonically (for logs, hashes and messages).
-func ValStr(x interface{}) string {
+func ValStr(x interface{}) string { return valStr(x, 0) }
+
+func valStr(x interface{}, depth int) string {
+	if depth > 8 {
+		return "<nested too deep: a value that contains itself?>"
+	}
 	switch t := x.(type) {
 	case nil:
 		return "nil"
@@ -228,12 +233,25 @@ func ValStr(x interface{}) string {
 			if i > 0 {
 				sb.WriteByte(' ')
 			}
-			sb.WriteString(ValStr(v))
+			sb.WriteString(valStr(v, depth+1))
 		}
 		sb.WriteString("]")
 		return sb.String()
 	case error:
 		return "err:" + t.Error()
+	}
+	if rv := reflect.ValueOf(x); rv.Kind() == reflect.Slice && rv.Type().Elem().Kind() == reflect.Interface {
+		// e.g. []eval.Value handed back by a user operator; may contain itself
+		var sb strings.Builder
+		fmt.Fprintf(&sb, "<%T:[", x)
+		for i := 0; i < rv.Len(); i++ {
+			if i > 0 {
+				sb.WriteByte(' ')
+			}
+			sb.WriteString(valStr(rv.Index(i).Interface(), depth+1))
+		}
+		sb.WriteString("]>")
+		return sb.String()
 	}
 	return fmt.Sprintf("<%T:%v>", x, x)
 }
